@@ -474,7 +474,16 @@ func (e *Env) load(addr ssa.Value, at ssa.Instruction, typ types.Type) *Term {
 						if r, _ := addrRoot(a); r == root {
 							if ai, ok2 := a.(ssa.Instruction); ok2 || a == root {
 								_ = ai
-								return &Term{Op: "clobbered", Name: CalleeName(c), Args: []*Term{{Op: "alloc", Name: allocName(alloc), ID: e.prefix + alloc.Name()}}, Typ: typ}
+								cid := ""
+								if cv, isV := in.(ssa.Value); isV {
+									cid = e.prefix + cv.Name()
+								}
+								ct := &Term{Op: "clobbered", Name: CalleeName(c), Args: []*Term{{Op: "alloc", Name: allocName(alloc), ID: e.prefix + alloc.Name()}}, ID: cid}
+								for _, f := range lp {
+									ct = projField(ct, f)
+								}
+								ct.Typ = typ
+								return ct
 							}
 						}
 					}
